@@ -224,6 +224,7 @@ Definition validate_basic (m : msg) : bool :=
   | FromErc20 sender receiver denom amt => valid_addr sender && valid_addr receiver && valid_sdk_denom denom && (0 <? amt)
   | SetParams auth tax ratio base _ _ =>
       valid_addr auth && (0 <=? tax) && (tax <=? P18) && (0 <=? ratio) && (ratio <=? P18) && (0 <=? base)
+      && (base <? 2 ^ 195)   (* [fix:] of the params group: at most 195 bits *)
   | EvmMode _ => true
   | HookToNative _ from _ amt => valid_addr from && (0 <=? amt)
   | UpgradeErc20 auth impl => valid_addr auth && (0 <=? impl)
@@ -322,6 +323,8 @@ Definition do_swapfee (s : state) sender receiver denom amt : res state :=
             match token_by_minunit s target with
             | None => RRej
             | Some tm =>
+                if lossless_overflows amt ratio (t_scale tb) (t_scale tm) then RAbort   (* LegacyDec "Int overflow" panic *)
+                else
                 let '(b, m) := lossless_swap amt ratio (t_scale tb) (t_scale tm) in
                 if negb (coin_ok b) || negb (coin_ok m) then RAbort
                 else
